@@ -290,12 +290,17 @@ pub fn make_module() -> KMap {
 
                     let mut write_index = 0;
                     for read_index in 0..l.len() {
-                        let value = l.data()[read_index].clone();
+                        // The predicate can modify the list, so its length has to be rechecked
+                        let Some(value) = l.data().get(read_index).cloned() else {
+                            break;
+                        };
                         match ctx.vm.call_function(f.clone(), value.clone()) {
                             Ok(KValue::Bool(result)) => {
                                 if result {
-                                    l.data_mut()[write_index] = value;
-                                    write_index += 1;
+                                    if let Some(slot) = l.data_mut().get_mut(write_index) {
+                                        *slot = value;
+                                        write_index += 1;
+                                    }
                                 }
                             }
                             Ok(unexpected) => {
@@ -307,7 +312,7 @@ pub fn make_module() -> KMap {
                             Err(error) => return Err(error),
                         }
                     }
-                    l.data_mut().resize(write_index, KValue::Null);
+                    l.data_mut().truncate(write_index);
                     l
                 }
                 (KValue::List(l), [value]) => {
